@@ -4,7 +4,7 @@ From RV Require Import M_Engine P_Engine.
 Import ListNotations.
 
 (* taking a snapshot or restoring one -- whether its body succeeds or raises -- leaves every engine
-   variable (handler, sending and discovery switches, writing flag, saved tuple) exactly as before *)
+   variable (handler, sending and discovery switches, writing flag, the transport's reading flag, saved tuple) exactly as before *)
 Theorem C13_snapshot_leaves_engine : forall e o, up e -> snapshot_op o = true ->
   fst (step true e o) = e /\ snd (step true e o) <> RuntimeErr.
 Proof. exact snapshot_leaves_engine. Qed.
@@ -14,7 +14,7 @@ Theorem C13_snapshots_leave_engine : forall ops e, up e -> forallb snapshot_op o
   fst (run true e ops) = e.
 Proof. exact snapshots_leave_engine. Qed.
 
-(* ... and the packet that arrives afterwards is handled by the handler that was there before *)
+(* ... and the next packet of the transport's source is taken and handled by the handler that was there before *)
 Theorem C13_still_receiving : forall ops e h, up e -> handler e = Some h -> forallb snapshot_op ops = true ->
   snd (run true e (ops ++ [Rx])) = snd (run true e ops) ++ [Handled h].
 Proof. exact still_receiving. Qed.
@@ -35,8 +35,16 @@ Proof. exact never_stuck. Qed.
 (* regression witnesses: get_state()/restore without try/finally (before 5e7f144) *)
 Theorem C13_unguarded_refuted :
   run false up_example [GetState true; Rx; GetState false] =
-  (mkEng None true true true (Some (Some 7, false, false)), [BodyRaised; Dropped; RuntimeErr]).
+  (mkEng None true true true (Some (Some 7, false, false)) true true, [BodyRaised; Dropped; RuntimeErr]).
 Proof. exact unguarded_refuted. Qed.
 Theorem C13_guarded_repaired :
   run true up_example [GetState true; Rx; GetState false] = (up_example, [BodyRaised; Handled 7; Done]).
 Proof. exact guarded_repaired. Qed.
+
+(* a _resume() that resumes reading only when sending is enabled: a snapshot in the middle of a replayed log (sending disabled) leaves the
+   transport paused and the rest of the log is dropped; the engine as it is takes it *)
+Theorem C13_merged_guard_refuted :
+  up replaying /\ rd_paused (fst (resume_merged (fst (pause replaying)))) = true /\
+  snd (step true (fst (resume_merged (fst (pause replaying)))) Rx) = Dropped /\
+  snd (run true replaying [GetState false; Rx]) = [Done; Handled 7].
+Proof. exact merged_guard_refuted. Qed.
